@@ -250,6 +250,9 @@ def run_unit(unit_name, template_rel, variant):
         with GEN_LOCK:   # the generator keeps per-template state; only verus runs in parallel
             text, stats = extract.generate(tpl, variant, canary=False)
             ctext, _ = extract.generate(tpl, variant, canary=True)
+            ptext = None
+            if "@@borrowprobe" in open(tpl).read():
+                ptext, _ = extract.generate(tpl, variant, canary=False, probe=True)
     except ExtractError as e:
         res["status"] = "undecided"
         res["undecided"] = "extraction: %s" % e
@@ -317,6 +320,42 @@ def run_unit(unit_name, template_rel, variant):
         res["status"] = "undecided"
         res["undecided"] = "zero obligations generated"
         return res
+    # borrow probes: lock-scope obligations discharged by the borrow checker
+    if ptext is not None and res["status"] != "undecided":
+        ppath = os.path.join(BUILD, crate + "__probe.rs")
+        open(ppath, "w").write(ptext)
+        pj, perr, pw = run_verus(ppath)
+        plines = ptext.split("\n")
+        probes = []
+        pidx = fn_index(ptext)
+        for i_, l_ in enumerate(plines):
+            pm_ = re.search(r"/\*BORROWPROBE (\S+) (\S+)\*/", l_)
+            if pm_:
+                owner = [q for (s_, e_, q) in pidx if s_ <= i_ + 1 <= e_]
+                probes.append((i_ + 1, pm_.group(1), [x for x in pm_.group(2).split(",") if x.startswith("C")], owner[-1] if owner else pm_.group(1)))
+        res["borrow_probes"] = []
+        pblocks = [b for b in re.split(r"\n(?=error)", "\n" + (perr or "")) if b.strip().startswith("error")]
+        for (ln, pname, ptags, owner) in probes:
+            hit = [b for b in pblocks if re.search(r"error\[E0(502|499|503|506|505)\]", b) and re.search(r"^\s*%d\s*\|" % ln, b, re.M)]
+            other = [b for b in pblocks if not re.search(r"error\[E0(502|499|503|506|505)\]", b) and "aborting due to" not in b]
+            if hit:
+                res["borrow_probes"].append(dict(probe=pname, status="lent (rejected by the borrow checker, as required)"))
+            elif other:
+                res["borrow_probes"].append(dict(probe=pname, status="undecided: " + other[0].split("\n", 1)[0][:200]))
+                res["status"] = "undecided"
+                res["undecided"] = "borrow probe %s could not be evaluated: %s" % (pname, other[0].split("\n", 1)[0][:200])
+            else:
+                # the probe text was ACCEPTED: the cell is not lent while the callbacks run
+                fn_ = pname.rsplit(".", 1)[0]
+                res["borrow_probes"].append(dict(probe=pname, status="NOT lent"))
+                if owner in res["functions"]:
+                    res["functions"][owner]["ok"] = False
+                res["failures"].append(dict(function=owner, tags=ptags, kind="lock scope (borrow probe accepted)",
+                                            clause=plines[ln - 1].strip(),
+                                            text="the loop of `%s` that runs the callbacks does not hold the cell borrowed: the probe invariant that mentions the cell was accepted by the borrow checker (it must be rejected with E0502)\n%s" % (fn_, (perr or "")[-1500:])))
+                res["status"] = "violated"
+        if res["status"] == "undecided":
+            return res
     # canary: every contracted function must fail when `false` is added to its postcondition
     cj, cerr, cw = run_verus(cpath)
     expected = len(re.findall(r"assert\(false\); // CANARY", ctext))
